@@ -136,6 +136,12 @@ func (s *Schema) compile() error {
 func (s *Schema) doCompile() error {
 	content := s.file.Content()
 
+	if len(content) == 0 {
+		err := errors.NewDocumentError(s.file, errors.ErrUnexpectedEOF)
+		err.SetIndex(0)
+		return err
+	}
+
 	if content[0] != '/' {
 		return s.newDocumentError(errors.ErrRegexUnexpectedStart, 0, content[0])
 	}
